@@ -155,6 +155,47 @@ def run(ctx, idx):
     if _xr is None:
         raise AnalysisError("C02.l: FuzzyXOr vanished")
     xor_quotient_guard(ctx, "C02.l", _xr[0], _xr[1], "; numpy.ma masks the 0/0 cell and an item store through a masked index writes the data only, so the cell stays missing - and every command downstream inherits a missing cell the evaluation of the graph does not have")
+    # ---- o: a partial ordering of the layer stack must be total enough for every legal count
+    ctx.rule("C02.o", "FuzzySelectedUnion evaluates for every legal NumberToConsider (1 .. the number of inputs): where the stack is put in order by partition / argpartition instead of a full sort, the pivot is a valid layer index for each of them - `partition(N)` with N = the number of inputs is out of bounds (Falsest of ALL inputs dies with ValueError / UnexpectedError).")
+    _su = byname_res(idx).get("FuzzySelectedUnion")
+    if _su is None:
+        raise AnalysisError("C02.o: FuzzySelectedUnion vanished")
+    _sue = _su[0].execute
+    _parts = [c_ for c_ in ast.walk(getattr(_sue, "node_orig", None) or _sue.node) if isinstance(c_, ast.Call) and isinstance(c_.func, ast.Attribute) and c_.func.attr in ("partition", "argpartition") and c_.args]
+    _und_o = []
+    for c_ in _parts:
+        k_ = c_.args[0]
+        ksrc = K.src(K.expand(_sue, k_)) if isinstance(k_, ast.Name) else K.src(k_)
+        # how the pivot relates to the count parameter, where it can be read off: the count itself (k = N: out of bounds when N = all
+        # inputs), the count minus one, or `len(arrays) - count` (0 .. len - 1: fine)
+        defs_ = [st_.value for st_ in ast.walk(_sue.node) if isinstance(st_, ast.Assign) and any(isinstance(t_, ast.Name) and isinstance(k_, ast.Name) and t_.id == k_.id for t_ in st_.targets)] if isinstance(k_, ast.Name) else [k_]
+        verdicts = []
+        for d_ in defs_:
+            ds_ = K.src(K.expand(_sue, d_)) if not isinstance(d_, ast.Name) else K.src(K.expand(_sue, d_))
+            ds_ = ds_.replace(" ", "")
+            if "NumberToConsider" in ds_ and not ("-" in ds_):
+                verdicts.append(False)
+            elif "NumberToConsider" in ds_ and (ds_.startswith("len(") or ds_.endswith("-1")):
+                verdicts.append(True)
+            else:
+                verdicts.append(None)
+        if any(v_ is False for v_ in verdicts):
+            ctx.violate("C02.o", "%s.execute::pivot-in-range" % _su[0].key, _su[0].module.rel, c_.lineno, "`%s` takes the count itself as the pivot: with NumberToConsider equal to the number of inputs - a legal request, the falsest (or truest) of ALL of them - the pivot is one past the last layer and numpy raises ValueError (kth out of bounds), so the model dies with UnexpectedError instead of evaluating" % K.src(c_)[:60])
+        elif any(v_ is None for v_ in verdicts) or not verdicts:
+            _und_o.append("C02.o: the pivot `%s` of the partial ordering is outside the forms read here" % ksrc[:50])
+        else:
+            ctx.hold("C02.o", "%s.execute::pivot-in-range" % _su[0].key, _su[0].module.rel, c_.lineno, "the pivot is a valid layer index for every legal count")
+    if not _parts:
+        ctx.hold("C02.o", "%s.execute::pivot-in-range" % _su[0].key, _su[0].module.rel, _sue.node.lineno, "the stack is sorted in full: no pivot to get wrong", nontrivial=False)
+    # ---- n: the curve commands put their control points in order themselves
+    ctx.rule("C02.n", "A curve is a function of its control points, not of the order they are listed in: NormalizeCurve / NormalizeCurveZScore sort the (raw, normal) pairs before interpolating (C08.b's reading) - a routine that needs ascending x (numpy.interp) fed with the points as listed returns other numbers, silently.")
+    from .C08 import sorted_pairs as _sorted_pairs
+
+    for _nm in ("NormalizeCurve", "NormalizeCurveZScore"):
+        _cr = byname_res(idx).get(_nm)
+        if _cr is None:
+            raise AnalysisError("C02.n: %s vanished" % _nm)
+        _sorted_pairs(ctx, idx, _cr[0], _cr[1], rule="C02.n")
     # ---- k: sharing is not a cycle
     from .coverage import false_cycle_reports
 
@@ -251,3 +292,5 @@ def run(ctx, idx):
     C03.readers(ctx, idx, "C02.f")
     if lost:
         raise AnalysisError(lost[0])
+    if _und_o:
+        raise AnalysisError(_und_o[0])
